@@ -555,6 +555,11 @@ impl<'a> Engine<'a> {
                         format!("rejected batch [{}] changed the state after [{}]", label, n.path_str()),
                         n.replay_json(Some(a)),
                     );
+                    // what a refused batch leaves behind is issued by nothing (C01): no denomination may have grown
+                    if self.check_conservation {
+                        let child = n.child(Real::Open(next.clone()), n.model.clone(), a);
+                        self.check_batch_conservation(n, &before, &after, &[], &child, a, &ctx);
+                    }
                     if after.header.stakes_hash != before.header.stakes_hash {
                         run.violation(
                             "C13",
